@@ -26,6 +26,7 @@ type c20Case struct {
 	Class string   `json:"class"`          // verify, repair, create, usage, badext
 	State string   `json:"state"`          // intact, deleted, shifted, unrepairable, noparity-intact, noparity-damaged, badindex, noindex
 	Cwd   string   `json:"cwd"`            // set, parent, unrelated
+	Limit int      `json:"limit,omitempty"` // the first command runs under a file size limit of this many 512-byte blocks (sh: ulimit -f): writes beyond it fail part-way
 	Then  []string `json:"then,omitempty"` // further steps after Cmd on the same directory: v, va, r, rd (commands), del0 / restore (events)
 }
 
@@ -106,6 +107,14 @@ func c20Gen(g *core.Gen) {
 			g.Emit(&c20Case{Fmt: f, Cmd: []string{"create", "-s", "4", "{PAR}", "{F0}", "{MISSING}"}, Class: "create", State: "missing-input", Cwd: cw})
 			g.Emit(&c20Case{Fmt: f, Cmd: []string{"create", "-s", "4", "{NODIR}", "{F0}"}, Class: "create", State: "no-directory", Cwd: cw})
 			// an output file cannot be written: a directory sits at the path of the index / first / last recovery file
+			// a Create that runs into a file size limit (every limit that cuts a different file or a different place), then
+			// the same Create without the limit, then verify and repair: whatever the interrupted run left behind must not
+			// break the set written afterwards
+			for _, lim := range []int{1, 2, 3, 4, 6, 8, 16, 32, 40} {
+				for _, then := range [][]string{{"c", "v"}, {"c", "del0", "r", "v"}} {
+					g.Emit(&c20Case{Fmt: f, Cmd: []string{"create", "-s", "1000", "-c", "3", "{PAR}", "{F0}", "{F1}"}, Class: "create", State: "biglimit", Cwd: cw, Limit: lim, Then: then})
+				}
+			}
 			for _, st := range []string{"blocked-index", "blocked-first-volume", "blocked-last-volume"} {
 				g.Emit(&c20Case{Fmt: f, Cmd: []string{"create", "-s", "4", "-c", "3", "{PAR}", "{F0}", "{F1}"}, Class: "create", State: st, Cwd: cw})
 			}
@@ -301,6 +310,7 @@ func c20Run(ci interface{}, r *core.Rec) {
 	case "noindex":
 		os.Remove(index)
 	}
+	curLimit := 0
 	step := func(cmdT []string, cls string) {
 		// reference truth about the state
 		allIntact := func() bool {
@@ -388,6 +398,9 @@ func c20Run(ci interface{}, r *core.Rec) {
 		}
 		before := snapTree(root)
 		cmd := exec.Command(bin, argv...)
+		if curLimit > 0 {
+			cmd = exec.Command("sh", append([]string{"-c", fmt.Sprintf(`ulimit -f %d; exec "$0" "$@"`, curLimit), bin}, argv...)...)
+		}
 		cmd.Dir = cwd
 		var outb bytes.Buffer
 		cmd.Stdout = &outb
@@ -460,7 +473,7 @@ func c20Run(ci interface{}, r *core.Rec) {
 				fail("repair-possible-but-failed")
 			}
 		case "create":
-			if strings.HasPrefix(c.State, "blocked-") || c.State == "boundary" {
+			if strings.HasPrefix(c.State, "blocked-") || c.State == "boundary" || c.State == "biglimit" {
 				// whichever names Create chose, exit 0 is acceptable only if the written set is complete (checked below);
 				// with the conventional names the blocked path makes one write fail, which must not exit 0
 				if code == 3 && c.State != "boundary" { // a boundary option value may legitimately be a usage error
@@ -551,10 +564,14 @@ func c20Run(ci interface{}, r *core.Rec) {
 		}
 
 	}
+	curLimit = c.Limit
 	step(c.Cmd, c.Class)
+	curLimit = 0
 	// history: further commands on the directory as the previous one left it, each judged against the truth at that moment
 	for _, k := range c.Then {
 		switch k {
+		case "c":
+			step(c.Cmd, "create") // the first command again, without any limit
 		case "v":
 			step([]string{"verify", "{PAR}"}, "verify")
 		case "va":
@@ -595,7 +612,7 @@ func init() {
 	core.Register(&core.Prop{
 		ID:    "C20",
 		Level: "model_checking",
-		Rule: "full product through the built par binary: {PAR1, PAR2} x {verify, v, VERIFY, -g 2 verify, verify -a; repair, r, Repair, repair -doublecheck, -g 3 r -doublecheck=true} x archive state {intact, repairable by deletion, by shift/change, by removing appended bytes, shift+deletion, unrepairable, no parity (data intact / file deleted / file only shifted), one block left + shift, damaged index, missing index, a 17000-byte first file intact / damaged beyond or within its first 16 KiB with exactly one recovery block (volume) left or with all} x invocation directory {set directory with relative paths, parent with relative paths, unrelated with absolute paths}; command histories: a first verify / repair followed by every sequence of 2 (thorough 3) further steps from {verify, verify -a, repair, repair -doublecheck, delete a file, restore all files} from 5 starting states, every command judged against the byte truth at that moment; create variants (incl. option values at and beyond their limits - slice size 0 / 6 / negative / 2^20, block count 0 / -1 / 255 / 256 / 32768 / 65534 / 65535 / 65536, goroutines 0 / negative / 100000, an input listed twice, the index as its own input, no input, inputs whose names look like members of the set (s.pdf, s.par2.txt, s.vol-notes): there only 'exit 0 => complete valid set' is judged -; missing input, missing directory, an output path blocked by a directory: index, first and last recovery file), 11 usage-error command lines plus 29 near-command words (the empty word, blanks, proper prefixes, one letter too many, padded with blanks), unknown extensions. " +
+		Rule: "full product through the built par binary: {PAR1, PAR2} x {verify, v, VERIFY, -g 2 verify, verify -a; repair, r, Repair, repair -doublecheck, -g 3 r -doublecheck=true} x archive state {intact, repairable by deletion, by shift/change, by removing appended bytes, shift+deletion, unrepairable, no parity (data intact / file deleted / file only shifted), one block left + shift, damaged index, missing index, a 17000-byte first file intact / damaged beyond or within its first 16 KiB with exactly one recovery block (volume) left or with all} x invocation directory {set directory with relative paths, parent with relative paths, unrelated with absolute paths}; command histories: a first verify / repair followed by every sequence of 2 (thorough 3) further steps from {verify, verify -a, repair, repair -doublecheck, delete a file, restore all files} from 5 starting states, every command judged against the byte truth at that moment; create variants (incl. option values at and beyond their limits - slice size 0 / 6 / negative / 2^20, block count 0 / -1 / 255 / 256 / 32768 / 65534 / 65535 / 65536, goroutines 0 / negative / 100000, an input listed twice, the index as its own input, no input, inputs whose names look like members of the set (s.pdf, s.par2.txt, s.vol-notes): there only 'exit 0 => complete valid set' is judged -; missing input, missing directory, an output path blocked by a directory: index, first and last recovery file; a Create cut short by a file size limit of 1..40 blocks, then repeated without the limit, then verify / delete a file + repair + verify), 11 usage-error command lines plus 29 near-command words (the empty word, blanks, proper prefixes, one letter too many, padded with blanks), unknown extensions. " +
 			"Oracle (one-directional, as stated): exit 0 => full success by byte truth / library re-verification (for create also: taking any one input away makes the new set need repair); verify needed&possible => 1, needed&impossible => 2; repair needed&impossible => 2, possible => 0 and files restored; usage => 3; other failures => neither 0 nor 3; no Go panic; files created relative to the invocation directory. non-trivial = verify/repair/create runs",
 		Assumptions: []string{"'needed' = some protected file not byte-identical; 'possible' = reference count of unfindable slices (unusable files) <= intact recovery blocks (volumes) present"},
 		NewCase:     func() interface{} { return &c20Case{} },
